@@ -121,6 +121,11 @@ func (c *Conversation) End() (toSend []ValidMessage, err error) {
 	c.lastMessageStateChange = time.Time{}
 	c.ake.wipe(true)
 	c.ake = nil
+	if c.resend.mayRetransmit != retransmitExact {
+		// the last message of the conversation that ends here is not kept (and not resent in a later
+		// one); texts still waiting for a session to start are
+		c.resend.forget()
+	}
 	c.msgState = plainText
 	defer c.signalSecurityEventIf(previousMsgState == encrypted, GoneInsecure)
 
